@@ -1023,8 +1023,11 @@ func directed() []string {
 func gen(r *hx.Rng, n int, tier string) []string {
 	g := &G{r: r, tier: tier, pool: map[string][]string{}}
 	out := append(directed(), directedJWK()...)
+	out = append(out, directedJSONText()...)
 	for len(out) < n {
-		switch k := r.Intn(110); {
+		switch k := r.Intn(124); {
+		case k >= 110: // the JSON text layer (gen_jsontext.go)
+			out = append(out, g.jsonTextCase())
 		case k >= 105:
 			out = append(out, g.exportCase())
 		case k >= 100:
